@@ -149,7 +149,9 @@ def _run_case(case):
             ob["w"] = c06w.real_side(case, sysd, kind, mode, S.make_algo, S.rtree_json)
         # --- end C06W hook ---
         ob["hscale"] = float(np.max(np.abs(sysd["H"])))
-        ob["psi0_dev"] = float(np.max(np.abs(ob["measure"][0]["vec"] - psi0))) if ob["measure"] else None
+        # (a state that was multiplied by 2^sexp > 1 is judged in units of that factor: the same state, the same tolerance)
+        ob["psi0_dev"] = (float(np.max(np.abs(ob["measure"][0]["vec"] - psi0))) / max(1.0, 2.0 ** case.get("sexp", 0))
+                          if ob["measure"] else None)
         if sub == "reverse":
             ids = sysd["ids"]
             bd = {S.nid(i): sysd["ttns"].nodes[i].shape[sysd["ttns"].nodes[i].neighbour_index(sysd["ttns"].nodes[i].parent)]
